@@ -291,3 +291,66 @@ Fixpoint first_div_dirm (d : dst) (ops : list op) (obs : list out) (i : nat) : o
       if out_match mr r then first_div_dirm d1 ops' obs' (S i) else Some (i, mr)
   | _, _ => None
   end.
+
+(* ---- the tar-entry channel of pkg/tarfs (Model/TarEntry.v) ---------------------------------------
+   Sequences of FullFS operations and WriteHeader calls (regular files backed by a
+   package's tar entry) on the real tarfs, the opener's files being the harness's.
+   Every step is compared with the model [tstep] (mismatch:tarentry-<Op>).  The
+   observed result and the state the model leaves are judged against the reference
+   step on the PLAIN filesystem the state stands for ([flat]: an entry that is not
+   loaded yet is the file's content).  A WriteHeader of a fresh name is judged as the
+   reference's WriteFile of the entry's bytes; on an existing name it is package
+   conflict handling (C07) and only compared with the model.
+   Tag of the channel's own mechanism: tarfs-entry-readonly-handle-is-the-openers-file
+   (a read-only handle of a not-yet-loaded file is the opener's file: no Seek, and it
+   keeps reading the package's bytes after the file was written or truncated). *)
+From Apko Require Export Model.TarEntry.
+
+Definition top_name (o : top) : string :=
+  match o with TOp o => op_name o | TWriteHeader _ _ _ => "WriteHeader" end.
+
+Definition on_rc_handle (ts : tst) (o : op) : bool :=
+  match o with
+  | Read i _ | ReadAt i _ _ | Write i _ | Seek i _ _ | Close i =>
+      match nlookup i (t_rc ts) with Some _ => true | None => false end
+  | _ => false
+  end.
+
+Fixpoint check_tsteps (ts : tst) (ops : list top) (obs : list out) : list string :=
+  match ops, obs with
+  | [], [] => []
+  | o :: ops', r :: obs' =>
+      let '(ts1, mr) := tstep ts o in
+      let s := flat ts in
+      let vt :=
+        match o with
+        | TOp o' =>
+            let '(s1', sr) := spec_step s o' in
+            if out_match sr r && st_eqb (flat ts1) s1' then []
+            else if on_rc_handle ts o' then ["viol:tarfs-entry-readonly-handle-is-the-openers-file"]
+            else [String.append "viol:" (viol_tag TarFS s o' sr r)]
+        | TWriteHeader p c perm =>
+            match s_leaf (heap s) p with
+            | inl (_, _, None) =>
+                let '(s1', sr) := spec_step s (WriteFile p c perm) in
+                let r' := match r with ONum 1%Z => OOk | x => x end in
+                if out_match sr r' && st_eqb (flat ts1) s1' then []
+                else [String.append "viol:" (viol_tag TarFS s (WriteFile p c perm) sr r')]
+            | _ => []
+            end
+        end in
+      if out_match mr r then vt ++ check_tsteps ts1 ops' obs'
+      else vt ++ [String.append "mismatch:tarentry-" (top_name o)]
+  | _, _ => ["mismatch:observation-count"]
+  end.
+
+Record t_case := { tc_ops : list top; tc_obs : list out }.
+Definition check_tar_case (c : t_case) : list string := dedup (check_tsteps tinit (tc_ops c) (tc_obs c)).
+
+Fixpoint first_div_tar (ts : tst) (ops : list top) (obs : list out) (i : nat) : option (nat * out) :=
+  match ops, obs with
+  | o :: ops', r :: obs' =>
+      let '(ts1, mr) := tstep ts o in
+      if out_match mr r then first_div_tar ts1 ops' obs' (S i) else Some (i, mr)
+  | _, _ => None
+  end.
